@@ -348,3 +348,57 @@ func eachLine(path string, f func(line []byte)) {
 }
 
 func jsonUnmarshal(b []byte, v interface{}) error { return json.Unmarshal(b, v) }
+
+// Edits made AFTER a tree was indexed, that leave its derived data (tip index, bitsets, hashes, depths) as they
+// were: the computing entry points are specified on the tree as it is, whatever its history. The tree that comes
+// out is projected and is the input the oracle judges against.
+func staleEdits(r *rand.Rand, t *tree.Tree) string {
+	did := ""
+	n := 1 + r.Intn(2)
+	for i := 0; i < n; i++ {
+		switch r.Intn(5) {
+		case 0: // permute the tip names among the tips (same taxa, other labelling)
+			names := t.AllTipNames()
+			perm := r.Perm(len(names))
+			m := map[string]string{}
+			for j, nm := range names {
+				m[nm] = names[perm[j]]
+			}
+			if err := t.Rename(m); err == nil {
+				did += "rename;"
+			}
+		case 1:
+			var inner []*tree.Node
+			for _, nd := range t.Nodes() {
+				if nd.Nneigh() >= 3 {
+					inner = append(inner, nd)
+				}
+			}
+			// (re-rooting a rooted tree at an inner node would leave the old root as a single-child node)
+			if len(inner) > 0 && !t.Rooted() && t.Reroot(inner[r.Intn(len(inner))]) == nil {
+				did += "reroot;"
+			}
+		case 2:
+			t.RotateInternalNodes()
+			did += "rotate;"
+		case 3: // swap the names of two tips directly
+			tips := t.Tips()
+			if len(tips) >= 2 {
+				a, b := tips[r.Intn(len(tips))], tips[r.Intn(len(tips))]
+				na, nb := a.Name(), b.Name()
+				a.SetName(nb)
+				b.SetName(na)
+				did += "swapnames;"
+			}
+		default: // contract one inner branch
+			for _, e := range t.Edges() {
+				if !e.Right().Tip() && e.Left() != nil && r.Intn(3) == 0 {
+					t.RemoveEdges(false, false, e)
+					did += "contract;"
+					break
+				}
+			}
+		}
+	}
+	return did
+}
